@@ -136,7 +136,14 @@ def is_strlike(x):
     return isinstance(x, (str, SymStr))
 
 
+_DUNDER = {ast.Add: '__add__', ast.Sub: '__sub__', ast.Mult: '__mul__'}
+
+
 def binop(eng, op, a, b):
+    if isinstance(a, Obj) and a.cls is not None and type(op) in _DUNDER:
+        m = a.cls.lookup(_DUNDER[type(op)])
+        if m is not None:
+            return eng.call(m, [a, b])
     # strings
     if is_strlike(a) and isinstance(op, ast.Mod):
         return str_format(eng, a, b)
